@@ -1,23 +1,33 @@
 import KV.Proofs.ValSetStep
 import KV.Proofs.ValSetUpdate
+import KV.Proofs.ValSetCompose
 /-!
-# Round-by-round = round-skipping (C12 `proposer_path_independent`, used by C04)
+# The former rule of `IncrementProposerPriority` (normalise once per call) and when it agrees with
+the present one (C12 `proposer_path_independent`, regression for finding C12-P1; used by C04)
 
-`IncrementProposerPriority(k)` normalises once (rescale, centre) and then runs `k` rounds; a node
-that goes through the rounds one by one calls `IncrementProposerPriority(1)` `k` times and
-normalises before every round.  Centring is the identity on a centred list and rounds keep the
-priority sum, so the two agree as long as no intermediate call rescales.
+Before the fix of C12-P1 `IncrementProposerPriority(k)` normalised once (rescale, centre) and then
+ran `k` rounds, while a node that goes through the rounds one by one normalises before every round.
+Centring is the identity on a centred list and rounds keep the priority sum, so the two agree as
+long as no intermediate call rescales (`PathCtx.noRescale`) — and only then.  The present rule
+(`increment`, one normalisation per round) composes unconditionally: `ValSetCompose.lean`.
 -/
 namespace KV.ValSet
 open KV.I64
 
-/-- `k` successive `IncrementProposerPriority(1)` -/
-def iterInc : Nat → ValSet → Except Err ValSet
-  | 0, vs => .ok vs
-  | k + 1, vs =>
-    match increment vs 1 with
-    | .ok vs' => iterInc k vs'
-    | .error e => .error e
+/-- `IncrementProposerPriority(times)` as it was before the fix of C12-P1: one normalisation,
+then `times` rounds -/
+def incrementOld (vs : ValSet) (times : Int) : Except Err ValSet :=
+  if vs.vals.isEmpty then .error .panic
+  else if times ≤ 0 then .error .panic
+  else match totalOf vs with
+    | none => .error .panic
+    | some T =>
+      let D := I64.mul windowFactor T
+      if rescalePanics D vs.vals then .error .panic
+      else
+        let l2 := shiftList (rescaleList D vs.vals)
+        let r := stepsList T times.toNat l2 none
+        .ok { vals := r.1, proposer := r.2, total := T }
 
 theorem stepsList_snoc (T : Int) (j : Nat) (l : List Validator) (p : Option Nat) :
     stepsList T (j + 1) l p = stepList T (stepsList T j l p).1 := by
@@ -147,9 +157,9 @@ theorem shiftList_centred (l : List Validator) (hr : ∀ v ∈ l, InRange v.prio
     rw [safeSubClip_exact v.prio 0 (hr v hv) hz (by simpa using hr v hv)]; omega
   simp only [this, id]
 
-theorem increment_eq (vs : ValSet) (times : Int) (hne : vs.vals ≠ []) (ht : 0 < times)
+theorem incrementOld_eq (vs : ValSet) (times : Int) (hne : vs.vals ≠ []) (ht : 0 < times)
     (hT : vs.total ≠ 0) (hp : rescalePanics (I64.mul windowFactor vs.total) vs.vals = false) :
-    increment vs times = .ok
+    incrementOld vs times = .ok
       { vals := (stepsList vs.total times.toNat
           (shiftList (rescaleList (I64.mul windowFactor vs.total) vs.vals)) none).1,
         proposer := (stepsList vs.total times.toNat
@@ -158,7 +168,18 @@ theorem increment_eq (vs : ValSet) (times : Int) (hne : vs.vals ≠ []) (ht : 0 
   have h1 : vs.vals.isEmpty = false := by
     cases h : vs.vals with | nil => exact absurd h hne | cons _ _ => rfl
   have h2 : ¬ times ≤ 0 := by omega
-  simp [increment, totalOf, h1, hT, hp, h2]
+  simp [incrementOld, totalOf, h1, hT, hp, h2]
+
+/-- one round of the present rule, unfolded -/
+theorem increment_one_eq (vs : ValSet) (hne : vs.vals ≠ []) (hT : vs.total ≠ 0)
+    (hp : rescalePanics (I64.mul windowFactor vs.total) vs.vals = false) :
+    increment vs 1 = .ok
+      { vals := (stepList vs.total (shiftList (rescaleList (I64.mul windowFactor vs.total) vs.vals))).1,
+        proposer := (stepList vs.total (shiftList (rescaleList (I64.mul windowFactor vs.total) vs.vals))).2,
+        total := vs.total } := by
+  have h1 : vs.vals.isEmpty = false := by
+    cases h : vs.vals with | nil => exact absurd h hne | cons _ _ => rfl
+  simp [increment, totalOf, h1, hT, normSteps, normStep, hp]
 
 theorem stepsList_one (T : Int) (l : List Validator) (p : Option Nat) :
     stepsList T 1 l p = stepList T l := by simp [stepsList]
@@ -170,7 +191,7 @@ theorem increment_one_normal (s : List Validator) (p : Option Nat) (T : Int) (hn
       .ok { vals := (stepList T s).1, proposer := (stepList T s).2, total := T } := by
   have h1 : s.isEmpty = false := by
     cases h : s with | nil => exact absurd h hne | cons _ _ => rfl
-  simp [increment, totalOf, h1, hT, hnp, hres, hshift, stepsList]
+  simp [increment, totalOf, h1, hT, normSteps, normStep, hnp, hres, hshift]
 
 /-- what a set looks like between two rounds -/
 structure PathCtx (T D B : Int) (k : Nat) (l0 : List Validator) : Prop where
@@ -242,24 +263,36 @@ theorem path_many (T D B : Int) (k : Nat) (l0 : List Validator) (h : PathCtx T D
     rw [this]
 
 
-/-- **path independence**: `k` successive `IncrementProposerPriority(1)` give the same validator
-set (all priorities, proposer, total) as one `IncrementProposerPriority(k)`, provided no
-intermediate call rescales (`PathCtx.noRescale`) and the stated `int64` range condition holds. -/
-theorem iterInc_eq_increment (vs : ValSet) (k : Nat) (B : Int) (hk : 1 ≤ k) (hne : vs.vals ≠ [])
+/-- **the former rule agrees with round-by-round calls when nothing rescales in between**: `k`
+successive `IncrementProposerPriority(1)` give the set (all priorities, proposer, total) of the
+former one-normalisation `IncrementProposerPriority(k)`, provided no intermediate call rescales
+(`PathCtx.noRescale`) and the stated `int64` range condition holds. -/
+theorem iterInc_eq_incrementOld (vs : ValSet) (k : Nat) (B : Int) (hk : 1 ≤ k) (hne : vs.vals ≠ [])
     (hpanic : rescalePanics (I64.mul windowFactor vs.total) vs.vals = false)
     (h : PathCtx vs.total (I64.mul windowFactor vs.total) B k
       (shiftList (rescaleList (I64.mul windowFactor vs.total) vs.vals))) :
-    iterInc k vs = increment vs (k : Int) := by
+    iterInc k vs = incrementOld vs (k : Int) := by
   have hT : vs.total ≠ 0 := by have := h.tpos; omega
   obtain ⟨k', rfl⟩ : ∃ k', k = k' + 1 := ⟨k - 1, by omega⟩
-  rw [increment_eq vs ((k' + 1 : Nat) : Int) hne (by omega) hT hpanic]
+  rw [incrementOld_eq vs ((k' + 1 : Nat) : Int) hne (by omega) hT hpanic]
   unfold iterInc
-  rw [increment_eq vs 1 hne (by omega) hT hpanic]
+  rw [increment_one_eq vs hne hT hpanic]
   simp only
-  have h1 : (1 : Int).toNat = 1 := rfl
   have h2 : (((k' + 1 : Nat) : Int)).toNat = k' + 1 := by omega
-  rw [h1, h2, path_many _ _ B (k' + 1) _ h rfl k' 1 (by omega) (by omega)]
+  have h1 := path_many _ _ B (k' + 1) _ h rfl k' 1 (by omega) (by omega)
+  rw [stepsList_one] at h1
+  rw [h2, h1]
   have : 1 + k' = k' + 1 := by omega
   rw [this]
+
+/-- hence, under the same hypothesis, the present rule and the former rule compute the same set:
+over a stretch without a rescale the rounds of the code are `stepsList` after one normalisation -/
+theorem increment_eq_incrementOld (vs : ValSet) (k : Nat) (B : Int) (hk : 1 ≤ k) (hne : vs.vals ≠ [])
+    (hpanic : rescalePanics (I64.mul windowFactor vs.total) vs.vals = false)
+    (h : PathCtx vs.total (I64.mul windowFactor vs.total) B k
+      (shiftList (rescaleList (I64.mul windowFactor vs.total) vs.vals))) :
+    increment vs (k : Int) = incrementOld vs (k : Int) := by
+  rw [← iterInc_eq_increment vs k hk]
+  exact iterInc_eq_incrementOld vs k B hk hne hpanic h
 
 end KV.ValSet
